@@ -210,6 +210,9 @@ TimeoutMsg(e) ==
     /\ timeoutSeen' = TRUE
     /\ why' = why \cup Fails(<<
           <<e.d < 0 \/ e.d + 1000 >= Cfg.wait_us, "C05", "completion-timeout-announced-before-it-had-expired">>,
+          \* the wait is for in-flight iterations: with none (no handle in use) there is nothing to time out on - the
+          \* pool failed to complete although all its work was done
+          <<Cfg.light \/ Cfg.pool_only \/ liveH # {}, "C05", "completion-timeout-with-no-iteration-in-flight">>,
           <<e.d < 0 \/ e.d + 1000 >= Cfg.wait_us, "C06", "teardown-released-before-iterations-finished-or-the-timeout-expired">> >>)
     /\ Unch(<<lmax, skipped, setupSeen, ids, liveIds, liveH, endedIds, cleaned, succT, failT, sumTicks, lateSum, dropSum, stopSeen, limitSeen,
               evals, firstEvalT, pendingV, progS, progF, cancelT, retSeen, ret, mS, mF, mD, mSetup, mSetupRes, labelsBad,
